@@ -131,6 +131,10 @@ Fixpoint spec_fits (a : fs) (ops : list op) : Prop :=
   | o :: r => op_args o /\ fits (fst (spec_step a o)) /\ spec_fits (fst (spec_step a o)) r
   end.
 
+(** calls that do not modify the file *)
+Definition quiet (o : op) : bool :=
+  match o with OSize | OSync | OGetNode | ORead _ => true | _ => false end.
+
 (** ---------- the mechanism ---------- *)
 Record flags := { f_overlap : bool; f_curoff : bool; f_seekend : bool;
                   f_stale : bool; f_readws : bool; f_seekneg : bool }.
